@@ -12,6 +12,7 @@ BASE = {
     "DDR3_200": dict(memtype="DDR3", rate="1:4", clk_khz=200000, nbanks=8, nrows=2048, ncols=64),
     "DDR3_half": dict(memtype="DDR3", rate="1:2", clk_khz=150000, nbanks=8, nrows=2048, ncols=64),
     "DDR4":  dict(memtype="DDR4", rate="1:4", clk_khz=150000, nbanks=16, nrows=2048, ncols=64),
+    "DDR4_300": dict(memtype="DDR4", rate="1:4", clk_khz=300000, nbanks=16, nrows=2048, ncols=64),   # tRAS - tRCD > 4 controller cycles
 }
 
 
